@@ -1,11 +1,559 @@
+import Afkak.Wire.Crc
+import Afkak.Wire.Version
+import Afkak.Monitor.C04
+import Afkak.Monitor.C05
+import Afkak.Codec.Value
 import Driver.Util
-/-! Driver for the `Wire` component (stub until the component is built). -/
-namespace Driver.Wire
+/-!
+# Line-protocol driver for the wire component (`model_wire`)
 
-def step (st : Unit) (_line : String) : Unit × List String := (st, ["bad-op"])
+A request is `<command> <V> <V> …` (see `Afkak/Codec/Value.lean` for the value syntax); the answer
+is one line `ok <V>` / `error <ExceptionClass>` / `gen <V items> ok|<ExceptionClass>` followed by `.`.
+A request that does not parse is answered `bad-op` (never a default value).
+
+* `enc <api> …` / `dec <api> …` run the MODEL of afkak's encoders / decoders.
+* `spec-enc <kind> <value>` encodes a value with the INDEPENDENT grammar (`Afkak/Wire/Spec.lean`).
+* `mon-c04 <api> <caller's arguments> <frame>` evaluates `Afkak.Monitor.C04` on a frame the REAL
+  encoder produced; `mon-c05 <kind> <value> | <observed answer line>` evaluates `Afkak.Monitor.C05`
+  on what the REAL decoder returned for `spec-enc <kind> <value>`.
+
+Externals: the checksum is `Afkak.Wire.Crc.crc32`; `gzip_encode`, `gzip_decode` and the clock are
+set by `ext-*` requests from what the real externals returned in the harness; an input for which no
+answer was recorded yields the distinguished error `ext-missing`.
+-/
+namespace Driver.Wire
+open Afkak Afkak.Wire Afkak.Codec Afkak.Codec.V
+
+set_option synthInstance.maxSize 100000
+
+structure St where
+  now : Int := 0
+  gunzip : List (Option Bytes × R Bytes) := []
+  gzip : List (Bytes × R Bytes) := []
+  depth : Nat := 8
+
+def St.ext (s : St) : Ext where
+  crc := Crc.crc32
+  gzip := fun b => match s.gzip.filter (fun e => e.1 == b) with
+    | e :: _ => e.2
+    | [] => .error .extMissing
+  gunzip := fun b => match s.gunzip.filter (fun e => e.1 == b) with
+    | e :: _ => e.2
+    | [] => .error .extMissing
+  snappy := fun _ => .error .notImplemented
+  unsnappy := fun _ => .error .notImplemented
+  nowMs := s.now
+
+/-- the decompressor as the grammar-side monitors see it -/
+def St.gunzipOpt (s : St) (b : Bytes) : Option Bytes :=
+  match s.ext.gunzip (some b) with
+  | .ok x => some x
+  | .error _ => none
+
+/-! ## conversions -/
+
+def fmtOf (v : V) : Option (List Char) := v.toBytes?.map (fun b => b.map (fun c => Char.ofNat c.toNat))
+
+def ints? (v : V) : Option (List Int) := v.toList? >>= fun l => l.mapM V.toInt?
+
+def vInts (l : List Int) : V := .list (l.map .int)
+
+def msgOfV : V → Option Message
+  | .list [.int magic, .int att, k, v, ts] => do
+    let k ← k.toOptBytes?; let v ← v.toOptBytes?; let ts ← ts.toOptInt?
+    some { magic := magic, attributes := att, key := k, value := v, timestamp := ts }
+  | _ => none
+
+def vOfMsg (m : Message) : V :=
+  .list [.int m.magic, .int m.attributes, optBytes m.key, optBytes m.value, optInt m.timestamp]
+
+def msgsOfV (v : V) : Option (List Message) := v.toList? >>= fun l => l.mapM msgOfV
+
+def vOfOM (om : OffsetAndMessage) : V := .list [.int om.offset, vOfMsg om.message]
+
+def showR (r : R V) : List String :=
+  match r with
+  | .ok v => ["ok " ++ v.render]
+  | .error e => ["error " ++ e.name]
+
+def endName {α : Type} : R α → String
+  | .ok _ => "ok"
+  | .error e => e.name
+
+def genLine (items : List V) (ending : String) : String :=
+  "gen " ++ (V.list items).render ++ " " ++ ending
+
+def showGen (g : Gen) : String :=
+  genLine (g.1.map vOfOM) (match g.2 with | none => "ok" | some e => e.name)
+
+def optPair? (v : V) : Option (Option Bytes × Option Bytes) :=
+  match v with
+  | .list [a, b] => do let a ← a.toOptBytes?; let b ← b.toOptBytes?; some (a, b)
+  | _ => none
+
+/-! ## requests -/
+
+inductive Req
+  | header (cid : Bytes) (corr key ver : Int)
+  | produce (cid : Bytes) (corr : Int) (ps : List ProduceReq) (acks timeout ver : Int)
+  | fetch (cid : Bytes) (corr : Int) (ps : List FetchReq) (wait minb ver : Int)
+  | offset (cid : Bytes) (corr : Int) (ps : List OffsetReq)
+  | metadata (cid : Bytes) (corr : Int) (ts : List (Option Bytes))
+  | consumerMetadata (cid : Bytes) (corr : Int) (g : Option Bytes)
+  | offsetCommit (cid : Bytes) (corr : Int) (g : Option Bytes) (gen : Int) (consumer : Option Bytes) (ps : List OffsetCommitReq)
+  | offsetFetch (cid : Bytes) (corr : Int) (g : Option Bytes) (ps : List OffsetFetchReq)
+  | joinGroup (cid : Bytes) (corr : Int) (p : JoinGroupReq)
+  | joinGroupProtocolMetadata (ver : Int) (subs : List (Option Bytes)) (ud : Option Bytes)
+  | leaveGroup (cid : Bytes) (corr : Int) (g mid : Option Bytes)
+  | heartbeat (cid : Bytes) (corr : Int) (g : Option Bytes) (gen : Int) (mid : Option Bytes)
+  | syncGroup (cid : Bytes) (corr : Int) (g : Option Bytes) (gen : Int) (mid : Option Bytes) (asg : List (Option Bytes × Option Bytes))
+  | syncGroupMemberAssignment (ver : Int) (asg : List (Option Bytes × List Int)) (ud : Option Bytes)
+  | apiVersions (cid : Bytes) (corr key ver : Int)
+
+def parseReq (api : String) (a : List V) : Option Req :=
+  match api, a with
+  | "header", [.bytes cid, .int corr, .int key, .int ver] => some (.header cid corr key ver)
+  | "produce", [.bytes cid, .int corr, .list ps, .int acks, .int timeout, .int ver] => do
+    let ps ← ps.mapM (fun p => match p with
+      | .list [t, .int part, ms] => do
+        let t ← t.toOptBytes?; let ms ← msgsOfV ms
+        some ({ topic := t, partition := part, messages := ms } : ProduceReq)
+      | _ => none)
+    some (.produce cid corr ps acks timeout ver)
+  | "fetch", [.bytes cid, .int corr, .list ps, .int wait, .int minb, .int ver] => do
+    let ps ← ps.mapM (fun p => match p with
+      | .list [t, .int part, .int off, .int mb] => do
+        let t ← t.toOptBytes?
+        some ({ topic := t, partition := part, offset := off, maxBytes := mb } : FetchReq)
+      | _ => none)
+    some (.fetch cid corr ps wait minb ver)
+  | "offset", [.bytes cid, .int corr, .list ps] => do
+    let ps ← ps.mapM (fun p => match p with
+      | .list [t, .int part, .int time, .int mo] => do
+        let t ← t.toOptBytes?
+        some ({ topic := t, partition := part, time := time, maxOffsets := mo } : OffsetReq)
+      | _ => none)
+    some (.offset cid corr ps)
+  | "metadata", [.bytes cid, .int corr, .list ts] => do
+    let ts ← ts.mapM V.toOptBytes?
+    some (.metadata cid corr ts)
+  | "consumermetadata", [.bytes cid, .int corr, g] => do
+    let g ← g.toOptBytes?
+    some (.consumerMetadata cid corr g)
+  | "offset_commit", [.bytes cid, .int corr, g, .int gen, consumer, .list ps] => do
+    let g ← g.toOptBytes?; let consumer ← consumer.toOptBytes?
+    let ps ← ps.mapM (fun p => match p with
+      | .list [t, .int part, .int off, .int ts, md] => do
+        let t ← t.toOptBytes?; let md ← md.toOptBytes?
+        some ({ topic := t, partition := part, offset := off, timestamp := ts, metadata := md } : OffsetCommitReq)
+      | _ => none)
+    some (.offsetCommit cid corr g gen consumer ps)
+  | "offset_fetch", [.bytes cid, .int corr, g, .list ps] => do
+    let g ← g.toOptBytes?
+    let ps ← ps.mapM (fun p => match p with
+      | .list [t, .int part] => do
+        let t ← t.toOptBytes?
+        some ({ topic := t, partition := part } : OffsetFetchReq)
+      | _ => none)
+    some (.offsetFetch cid corr g ps)
+  | "join_group", [.bytes cid, .int corr, g, .int st, mid, pt, .list protos] => do
+    let g ← g.toOptBytes?; let mid ← mid.toOptBytes?; let pt ← pt.toOptBytes?
+    let protos ← protos.mapM optPair?
+    some (.joinGroup cid corr ⟨g, st, mid, pt, protos⟩)
+  | "join_group_protocol_metadata", [.int ver, .list subs, ud] => do
+    let subs ← subs.mapM V.toOptBytes?; let ud ← ud.toOptBytes?
+    some (.joinGroupProtocolMetadata ver subs ud)
+  | "leave_group", [.bytes cid, .int corr, g, mid] => do
+    let g ← g.toOptBytes?; let mid ← mid.toOptBytes?
+    some (.leaveGroup cid corr g mid)
+  | "heartbeat", [.bytes cid, .int corr, g, .int gen, mid] => do
+    let g ← g.toOptBytes?; let mid ← mid.toOptBytes?
+    some (.heartbeat cid corr g gen mid)
+  | "sync_group", [.bytes cid, .int corr, g, .int gen, mid, .list asg] => do
+    let g ← g.toOptBytes?; let mid ← mid.toOptBytes?
+    let asg ← asg.mapM optPair?
+    some (.syncGroup cid corr g gen mid asg)
+  | "sync_group_member_assignment", [.int ver, .list asg, ud] => do
+    let ud ← ud.toOptBytes?
+    let asg ← asg.mapM (fun p => match p with
+      | .list [t, ps] => do let t ← t.toOptBytes?; let ps ← ints? ps; some (t, ps)
+      | _ => none)
+    some (.syncGroupMemberAssignment ver asg ud)
+  | "api_versions", [.bytes cid, .int corr, .int key, .int ver] => some (.apiVersions cid corr key ver)
+  | _, _ => none
+
+/-- the MODEL of `KafkaCodec.encode_*` -/
+def Req.encode (s : St) : Req → R Bytes
+  | .header cid corr key ver => encodeHeader cid corr key ver
+  | .produce cid corr ps acks timeout ver => encodeProduceRequest s.ext cid corr ps acks timeout ver
+  | .fetch cid corr ps wait minb ver => encodeFetchRequest cid corr ps wait minb ver
+  | .offset cid corr ps => encodeOffsetRequest cid corr ps
+  | .metadata cid corr ts => encodeMetadataRequest cid corr ts
+  | .consumerMetadata cid corr g => encodeConsumerMetadataRequest cid corr g
+  | .offsetCommit cid corr g gen consumer ps => encodeOffsetCommitRequest cid corr g gen consumer ps
+  | .offsetFetch cid corr g ps => encodeOffsetFetchRequest cid corr g ps
+  | .joinGroup cid corr p => encodeJoinGroupRequest cid corr p
+  | .joinGroupProtocolMetadata ver subs ud => encodeJoinGroupProtocolMetadata ver subs ud
+  | .leaveGroup cid corr g mid => encodeLeaveGroupRequest cid corr g mid
+  | .heartbeat cid corr g gen mid => encodeHeartbeatRequest cid corr g gen mid
+  | .syncGroup cid corr g gen mid asg => encodeSyncGroupRequest cid corr g gen mid asg
+  | .syncGroupMemberAssignment ver asg ud => encodeSyncGroupMemberAssignment ver asg ud
+  | .apiVersions cid corr key ver => encodeApiVersionsRequest cid corr key ver
+
+/-- `Afkak.Monitor.C04` for the caller's arguments and a frame -/
+def Req.monitor (s : St) (frame : Bytes) : Req → Option Monitor.C04.Verdict
+  | .header .. => none
+  | .produce cid corr ps acks timeout ver => some (Monitor.C04.produce Crc.crc32 s.now cid corr ps acks timeout ver frame)
+  | .fetch cid corr ps wait minb ver => some (Monitor.C04.fetch cid corr ps wait minb ver frame)
+  | .offset cid corr ps => some (Monitor.C04.listOffsets cid corr ps frame)
+  | .metadata cid corr ts => some (Monitor.C04.metadata cid corr ts frame)
+  | .consumerMetadata cid corr g => some (Monitor.C04.findCoordinator cid corr g frame)
+  | .offsetCommit cid corr g gen consumer ps => some (Monitor.C04.offsetCommit cid corr g gen consumer ps frame)
+  | .offsetFetch cid corr g ps => some (Monitor.C04.offsetFetch cid corr g ps frame)
+  | .joinGroup cid corr p => some (Monitor.C04.joinGroup cid corr p frame)
+  | .joinGroupProtocolMetadata ver subs ud => some (Monitor.C04.subscription ver subs ud frame)
+  | .leaveGroup cid corr g mid => some (Monitor.C04.leaveGroup cid corr g mid frame)
+  | .heartbeat cid corr g gen mid => some (Monitor.C04.heartbeat cid corr g gen mid frame)
+  | .syncGroup cid corr g gen mid asg => some (Monitor.C04.syncGroup cid corr g gen mid asg frame)
+  | .syncGroupMemberAssignment ver asg ud => some (Monitor.C04.assignment ver asg ud frame)
+  | .apiVersions cid corr key ver => some (Monitor.C04.apiVersions cid corr key ver frame)
+
+/-! ## rendering of decoded responses (shared by `dec` and `mon-c05`) -/
+
+def vProduce (r : ProduceResp) : V := .list [.bytes r.topic, .int r.partition, .int r.error, .int r.offset]
+def vFetch (r : FetchResp) : V :=
+  .list [.bytes r.topic, .int r.partition, .int r.error, .int r.highwaterMark,
+         .list (r.messages.1.map vOfOM),
+         .bytes ((match r.messages.2 with | none => "ok" | some e => e.name).toUTF8.toList)]
+def vOffset (r : OffsetResp) : V := .list [.bytes r.topic, .int r.partition, .int r.error, vInts r.offsets]
+def vOffsetCommit (r : OffsetCommitResp) : V := .list [.bytes r.topic, .int r.partition, .int r.error]
+def vOffsetFetch (r : OffsetFetchResp) : V :=
+  .list [.bytes r.topic, .int r.partition, .int r.offset, optBytes r.metadata, .int r.error]
+def vPartitionMeta (p : PartitionMeta) : V :=
+  .list [.bytes p.topic, .int p.partition, .int p.partitionErrorCode, .int p.leader, vInts p.replicas, vInts p.isr]
+def vMetadata (r : List (Int × BrokerMeta) × List (Bytes × TopicMeta)) : V :=
+  .list [.list (r.1.map (fun (k, b) => .list [.int k, .list [.int b.nodeId, .bytes b.host, .int b.port]])),
+         .list (r.2.map (fun (k, t) => .list [.bytes k, .list [.bytes t.topic, .int t.topicErrorCode,
+           .list (t.partitionMetadata.map (fun (pk, p) => .list [.int pk, vPartitionMeta p]))]]))]
+def vConsumerMetadata (r : ConsumerMetadataResp) : V := .list [.int r.error, .int r.nodeId, .bytes r.host, .int r.port]
+def vJoinGroup (r : JoinGroupResp) : V :=
+  .list [.int r.error, .int r.generationId, .bytes r.groupProtocol, .bytes r.leaderId, .bytes r.memberId,
+         .list (r.members.map (fun (m, d) => .list [.bytes m, optBytes d]))]
+def vSubscription (r : JoinGroupProtocolMetadata) : V :=
+  .list [.int r.version, .list (r.subscriptions.map .bytes), optBytes r.userData]
+def vSyncGroup (r : Int × Option Bytes) : V := .list [.int r.1, optBytes r.2]
+def vAssignment (r : SyncGroupMemberAssignment) : V :=
+  .list [.int r.version, .list (r.assignments.map (fun (t, ps) => .list [.bytes t, vInts ps])), optBytes r.userData]
+def vApiVersions (r : Int × List ApiVersion) : V :=
+  .list [.int r.1, .list (r.2.map (fun v => .list [.int v.apiKey, .int v.minVersion, .int v.maxVersion]))]
+
+def gLine {α : Type} (f : α → V) (g : G α) : List String := [genLine (g.1.map f) (endName g.2)]
+
+/-- the MODEL of `KafkaCodec.decode_*` -/
+def decResponse (s : St) (api : String) (a : List V) : Option (List String) :=
+  match api, a with
+  | "produce", [.bytes data, .int ver] =>
+    some (match decodeProduceResponse data ver with
+      | .error e => ["error " ++ e.name]
+      | .ok g => gLine vProduce g)
+  | "fetch", [.bytes data, .int ver] => some (gLine vFetch (decodeFetchResponse s.ext s.depth data ver))
+  | "offset", [.bytes data] => some (gLine vOffset (decodeOffsetResponse data))
+  | "metadata", [.bytes data] => some (showR ((decodeMetadataResponse data).map vMetadata))
+  | "consumermetadata", [.bytes data] => some (showR ((decodeConsumerMetadataResponse data).map vConsumerMetadata))
+  | "offset_commit", [.bytes data] => some (gLine vOffsetCommit (decodeOffsetCommitResponse data))
+  | "offset_fetch", [.bytes data] => some (gLine vOffsetFetch (decodeOffsetFetchResponse data))
+  | "join_group", [.bytes data] => some (showR ((decodeJoinGroupResponse data).map vJoinGroup))
+  | "join_group_protocol_metadata", [.bytes data] => some (showR ((decodeJoinGroupProtocolMetadata data).map vSubscription))
+  | "leave_group", [.bytes data] => some (showR ((decodeLeaveGroupResponse data).map .int))
+  | "heartbeat", [.bytes data] => some (showR ((decodeHeartbeatResponse data).map .int))
+  | "sync_group", [.bytes data] => some (showR ((decodeSyncGroupResponse data).map vSyncGroup))
+  | "sync_group_member_assignment", [.bytes data] => some (showR ((decodeSyncGroupMemberAssignment data).map vAssignment))
+  | "api_versions", [.bytes data] => some (showR ((decodeApiVersionsResponse data).map vApiVersions))
+  | "correlation_id", [.bytes data] => some (showR ((getResponseCorrelationId data).map .int))
+  | _, _ => none
+
+/-! ## values of the grammar (`Afkak/Wire/Spec.lean`) from the pipe -/
+
+section SpecValues
+open Afkak.Wire.Spec
+
+def t2 {α β : Type} (f : V → Option α) (g : V → Option β) : V → Option (α × β)
+  | .list [a, b] => do let a ← f a; let b ← g b; some (a, b)
+  | _ => none
+def t3 {α β γ : Type} (f : V → Option α) (g : V → Option β) (h : V → Option γ) : V → Option (α × β × γ)
+  | .list [a, b, c] => do let a ← f a; let b ← g b; let c ← h c; some (a, b, c)
+  | _ => none
+def t4 {α β γ δ : Type} (f : V → Option α) (g : V → Option β) (h : V → Option γ) (i : V → Option δ) :
+    V → Option (α × β × γ × δ)
+  | .list [a, b, c, d] => do let a ← f a; let b ← g b; let c ← h c; let d ← i d; some (a, b, c, d)
+  | _ => none
+def t5 {α β γ δ ε : Type} (f : V → Option α) (g : V → Option β) (h : V → Option γ) (i : V → Option δ)
+    (j : V → Option ε) : V → Option (α × β × γ × δ × ε)
+  | .list [a, b, c, d, e] => do
+    let a ← f a; let b ← g b; let c ← h c; let d ← i d; let e ← j e; some (a, b, c, d, e)
+  | _ => none
+def tl {α : Type} (f : V → Option α) (v : V) : Option (List α) := v.toList? >>= fun l => l.mapM f
+def vi := V.toInt?
+def vb := V.toBytes?
+def vob := V.toOptBytes?
+
+/-- `[ imagic iattributes <ts|n> <key|n> <value|n> ]` -/
+def specMsgOfV : V → Option Msg
+  | .list [.int magic, .int att, ts, k, v] => do
+    let ts ← ts.toOptInt?; let k ← k.toOptBytes?; let v ← v.toOptBytes?
+    if att < 0 then none else some ⟨magic, att.toNat, ts, k, v⟩
+  | _ => none
+
+def specEntriesOfV : V → Option (List (Int × Msg)) := tl (t2 vi specMsgOfV)
+
+def specTopics {α : Type} (f : V → Option α) : V → Option (List (Bytes × List α)) := tl (t2 vb (tl f))
+
+/-- a response / message-set value of the grammar, by kind -/
+inductive SpecVal
+  | msgSet (v : List (Int × Msg))
+  | produce0 (v : Spec.ProduceRespV0)
+  | produce2 (v : Spec.ProduceRespV2)
+  | fetch0 (v : Spec.FetchRespV0)
+  | fetch2 (v : Spec.FetchRespV2)
+  | listOffsets (v : Spec.ListOffsetsResp)
+  | metadata (v : Spec.MetadataResp)
+  | findCoordinator (v : Spec.FindCoordinatorResp)
+  | offsetCommit (v : Spec.OffsetCommitResp)
+  | offsetFetch (v : Spec.OffsetFetchResp)
+  | joinGroup (v : Spec.JoinGroupResp)
+  | syncGroup (v : Spec.SyncGroupResp)
+  | heartbeat (v : Spec.ErrorOnlyResp)
+  | leaveGroup (v : Spec.ErrorOnlyResp)
+  | apiVersions (v : Spec.ApiVersionsResp)
+  | subscription (v : Spec.Subscription)
+  | assignment (v : Spec.Assignment)
+  | correlationId (corr : Int) (rest : Bytes)
+
+def fetchParts : V → Option (List (Bytes × List (Int × Int × Int × List (Int × Msg)))) :=
+  specTopics (t4 vi vi vi specEntriesOfV)
+
+def parseSpecVal (kind : String) (v : V) : Option SpecVal :=
+  match kind with
+  | "msgset" => (specEntriesOfV v).map .msgSet
+  | "produce0" => (t2 vi (specTopics (t3 vi vi vi)) v).map .produce0
+  | "produce2" => (t3 vi (specTopics (t4 vi vi vi vi)) vi v).map .produce2
+  | "fetch0" => (t2 vi fetchParts v).map .fetch0
+  | "fetch2" => (t3 vi vi fetchParts v).map .fetch2
+  | "offset" => (t2 vi (specTopics (t3 vi vi (tl vi))) v).map .listOffsets
+  | "metadata" =>
+    (t3 vi (tl (t3 vi vb vi)) (tl (t3 vi vb (tl (t5 vi vi vi (tl vi) (tl vi))))) v).map .metadata
+  | "consumermetadata" => (t5 vi vi vi vb vi v).map .findCoordinator
+  | "offset_commit" => (t2 vi (specTopics (t2 vi vi)) v).map .offsetCommit
+  | "offset_fetch" => (t2 vi (specTopics (t4 vi vi vob vi)) v).map .offsetFetch
+  | "join_group" =>
+    (match v with
+     | .list [c, e, g, p, l, m, ms] => do
+       let c ← vi c; let e ← vi e; let g ← vi g; let p ← vb p; let l ← vb l; let m ← vb m
+       let ms ← tl (t2 vb vb) ms
+       some (SpecVal.joinGroup (c, e, g, p, l, m, ms))
+     | _ => none)
+  | "sync_group" => (t3 vi vi vb v).map .syncGroup
+  | "heartbeat" => (t2 vi vi v).map .heartbeat
+  | "leave_group" => (t2 vi vi v).map .leaveGroup
+  | "api_versions" => (t3 vi vi (tl (t3 vi vi vi)) v).map .apiVersions
+  | "join_group_protocol_metadata" => (t3 vi (tl vb) vob v).map .subscription
+  | "sync_group_member_assignment" => (t3 vi (tl (t2 vb (tl vi))) vob v).map .assignment
+  | "correlation_id" => (t2 vi vb v).map (fun p => .correlationId p.1 p.2)
+  | _ => none
+
+/-- `Spec.X.enc v` -/
+def SpecVal.enc : SpecVal → Bytes
+  | .msgSet v => (messageSet Crc.crc32).enc v
+  | .produce0 v => produceResponseV0.enc v
+  | .produce2 v => produceResponseV2.enc v
+  | .fetch0 v => (fetchResponseV0 Crc.crc32).enc v
+  | .fetch2 v => (fetchResponseV2 Crc.crc32).enc v
+  | .listOffsets v => listOffsetsResponse.enc v
+  | .metadata v => metadataResponse.enc v
+  | .findCoordinator v => findCoordinatorResponse.enc v
+  | .offsetCommit v => offsetCommitResponse.enc v
+  | .offsetFetch v => offsetFetchResponse.enc v
+  | .joinGroup v => joinGroupResponse.enc v
+  | .syncGroup v => syncGroupResponse.enc v
+  | .heartbeat v => errorOnlyResponse.enc v
+  | .leaveGroup v => errorOnlyResponse.enc v
+  | .apiVersions v => apiVersionsResponse.enc v
+  | .subscription v => Spec.subscription.enc v
+  | .assignment v => Spec.assignment.enc v
+  | .correlationId c rest => int32.enc c ++ rest
+
+def genExpected {α : Type} (f : α → V) (e : Option (List α × Bool)) : Option (List String) :=
+  e.map (fun p => [genLine (p.1.map f) "ok"])
+
+/-- the answer line `Afkak.Monitor.C05` demands of the decoder for `Spec.X.enc v`
+    (`none` = `v` is outside the property's quantifier) -/
+def SpecVal.expected (s : St) : SpecVal → Option (List String)
+  | .msgSet v => (Monitor.C05.expectedSet Crc.crc32 s.gunzipOpt s.depth v).map (fun g => [showGen g])
+  | .produce0 v => genExpected vProduce (Monitor.C05.expectedProduceV0 v)
+  | .produce2 v => genExpected vProduce (Monitor.C05.expectedProduceV2 v)
+  | .fetch0 v => genExpected vFetch (Monitor.C05.expectedFetchV0 Crc.crc32 s.gunzipOpt s.depth v)
+  | .fetch2 v => genExpected vFetch (Monitor.C05.expectedFetchV2 Crc.crc32 s.gunzipOpt s.depth v)
+  | .listOffsets v => genExpected vOffset (Monitor.C05.expectedListOffsets v)
+  | .metadata v => (Monitor.C05.expectedMetadata v).map (fun r => ["ok " ++ (vMetadata r).render])
+  | .findCoordinator v => (Monitor.C05.expectedFindCoordinator v).map (fun r => ["ok " ++ (vConsumerMetadata r).render])
+  | .offsetCommit v => genExpected vOffsetCommit (Monitor.C05.expectedOffsetCommit v)
+  | .offsetFetch v => genExpected vOffsetFetch (Monitor.C05.expectedOffsetFetch v)
+  | .joinGroup v => (Monitor.C05.expectedJoinGroup v).map (fun r => ["ok " ++ (vJoinGroup r).render])
+  | .syncGroup v => (Monitor.C05.expectedSyncGroup v).map (fun r => ["ok " ++ (vSyncGroup r).render])
+  | .heartbeat v => (Monitor.C05.expectedErrorOnly v).map (fun r => ["ok " ++ (V.int r).render])
+  | .leaveGroup v => (Monitor.C05.expectedErrorOnly v).map (fun r => ["ok " ++ (V.int r).render])
+  | .apiVersions v => (Monitor.C05.expectedApiVersions v).map (fun r => ["ok " ++ (vApiVersions r).render])
+  | .subscription v => (Monitor.C05.expectedSubscription v).map (fun r => ["ok " ++ (vSubscription r).render])
+  | .assignment v => (Monitor.C05.expectedAssignment v).map (fun r => ["ok " ++ (vAssignment r).render])
+  | .correlationId c _ => (Monitor.C05.expectedCorrelationId c).map (fun r => ["ok " ++ (V.int r).render])
+
+end SpecValues
+
+/-! ## version selection -/
+
+def tableOfV (l : List V) : Option (List ApiVersion) :=
+  l.mapM (fun e => match e with
+    | .list [.int k, .int lo, .int hi] => some (⟨k, lo, hi⟩ : ApiVersion)
+    | _ => none)
+
+def stateOfV : V → Option ApiVersionsState
+  | .null => some .undiscovered
+  | .int 0 => some .legacy
+  | .list l => (tableOfV l).map .table
+  | _ => none
+
+def vOfState : ApiVersionsState → V
+  | .undiscovered => .null
+  | .legacy => .int 0
+  | .table t => .list (t.map (fun v => .list [.int v.apiKey, .int v.minVersion, .int v.maxVersion]))
+
+def attemptOfV : V → Option Attempt
+  | .null => some .unavailable
+  | .bytes b => some (.reply b)
+  | _ => none
+
+/-! ## the step function -/
+
+def optRes {α : Type} (f : α → List String) : Option α → List String
+  | none => ["bad-op"]
+  | some a => f a
+
+/-- split the tokens at the first `|` -/
+def splitBar : List String → List String × List String
+  | [] => ([], [])
+  | "|" :: rest => ([], rest)
+  | t :: rest => let (a, b) := splitBar rest; (t :: a, b)
+
+def step (s : St) (line : String) : St × List String :=
+  match Driver.words line with
+  | [] => (s, ["bad-op"])
+  | "enc" :: api :: toks =>
+    (match V.parseMany (toks.length + 1) toks with
+     | none => (s, ["bad-op"])
+     | some rest => (s, optRes (fun (r : Req) => showR ((r.encode s).map .bytes)) (parseReq api rest)))
+  | "dec" :: api :: toks =>
+    (match V.parseMany (toks.length + 1) toks with
+     | none => (s, ["bad-op"])
+     | some rest => (s, optRes id (decResponse s api rest)))
+  | "mon-c04" :: api :: toks =>
+    -- the caller's arguments as for `enc`, then the frame the real encoder produced
+    (match V.parseMany (toks.length + 1) toks with
+     | none => (s, ["bad-op"])
+     | some args =>
+       match args.getLast?, parseReq api args.dropLast with
+       | some (.bytes frame), some r => (s, optRes (fun (v : Monitor.C04.Verdict) => [v.name]) (r.monitor s frame))
+       | _, _ => (s, ["bad-op"]))
+  | "spec-enc" :: kind :: toks =>
+    (match V.parseAll toks with
+     | none => (s, ["bad-op"])
+     | some v => (s, optRes (fun (sv : SpecVal) => ["ok " ++ (V.bytes sv.enc).render]) (parseSpecVal kind v)))
+  | "mon-c05" :: kind :: toks =>
+    -- `<value> | <the answer line of the real decoder>`
+    (let (vt, observed) := splitBar toks
+     match V.parseAll vt with
+     | none => (s, ["bad-op"])
+     | some v => (s, optRes (fun (sv : SpecVal) =>
+         match sv.expected s with
+         | none => ["out-of-range"]
+         | some e => if e == [" ".intercalate observed] then ["ok"] else ["fail", "expected " ++ " ".intercalate e]) (parseSpecVal kind v)))
+  | cmd :: toks =>
+    match V.parseMany (toks.length + 1) toks with
+    | none => (s, ["bad-op"])
+    | some args =>
+      match cmd, args with
+      -- externals
+      | "ext-clear", [] => ({ s with gunzip := [], gzip := [] }, ["ok"])
+      | "ext-now", [.int t] => ({ s with now := t }, ["ok"])
+      | "ext-depth", [.int d] => ({ s with depth := d.toNat }, ["ok"])
+      | "ext-gunzip", [inp, .bytes out] =>
+        (match inp.toOptBytes? with
+         | some i => ({ s with gunzip := (i, .ok out) :: s.gunzip }, ["ok"])
+         | none => (s, ["bad-op"]))
+      | "ext-gunzip-err", [inp] =>
+        (match inp.toOptBytes? with
+         | some i => ({ s with gunzip := (i, .error .gunzip) :: s.gunzip }, ["ok"])
+         | none => (s, ["bad-op"]))
+      | "ext-gzip", [.bytes inp, .bytes out] => ({ s with gzip := (inp, .ok out) :: s.gzip }, ["ok"])
+      -- primitives
+      | "slice", [.bytes d, .int lo, .int hi] => (s, ["ok " ++ (V.bytes (Bytes.pySlice d lo hi)).render])
+      | "pack", [f, vs] =>
+        (s, optRes (fun (p : List Char × List Int) => showR ((pack p.1 p.2).map .bytes))
+          (do let f ← fmtOf f; let vs ← ints? vs; some (f, vs)))
+      | "runpack", [f, .bytes d, .int cur] =>
+        (s, optRes (fun f => showR ((relativeUnpack f d cur).map (fun (vs, c) => .list [vInts vs, .int c]))) (fmtOf f))
+      | "runpackn", [f, .int n, .bytes d, .int cur] =>
+        (s, optRes (fun f => showR ((relativeUnpackN f n d cur).map (fun (vs, c) => .list [vInts vs, .int c]))) (fmtOf f))
+      | "rsb", [.bytes d, .int cur] => (s, showR ((readShortBytes d cur).map (fun (b, c) => .list [optBytes b, .int c])))
+      | "ris", [.bytes d, .int cur] => (s, showR ((readIntString d cur).map (fun (b, c) => .list [optBytes b, .int c])))
+      | "rsa", [.bytes d, .int cur] => (s, showR ((readShortAscii d cur).map (fun (b, c) => .list [.bytes b, .int c])))
+      | "rst", [.bytes d, .int cur] => (s, showR ((readShortText d cur).map (fun (b, c) => .list [.bytes b, .int c])))
+      | "wsb", [b] => (s, optRes (fun b => showR ((writeShortBytes b).map .bytes)) b.toOptBytes?)
+      | "wis", [b] => (s, optRes (fun b => showR ((writeIntString b).map .bytes)) b.toOptBytes?)
+      | "wsa", [b] => (s, optRes (fun b => showR ((writeShortAscii b).map .bytes)) b.toOptBytes?)
+      | "wst", [b] => (s, optRes (fun b => showR ((writeShortText b).map .bytes)) b.toOptBytes?)
+      | "wcrc", [.bytes d] => (s, ["ok " ++ (V.int (Crc.crc32 d)).render])
+      | "group", [.list ps] =>
+        (s, optRes (fun (ps : List (Option Bytes × Int × Int)) =>
+            let g := groupByTopicPartition (fun p => p.1) (fun p => p.2.1) ps
+            ["ok " ++ (V.list (g.map (fun (t, inner) =>
+              .list [optBytes t, .list (inner.map (fun (p, x) => .list [.int p, .int x.2.2]))]))).render])
+          ((ps.zipIdx).mapM (fun (p, i) => match p with
+            | .list [t, .int part] => t.toOptBytes?.map (fun t => (t, part, (i : Int)))
+            | _ => none)))
+      -- messages
+      | "enc-msg", [m] => (s, optRes (fun m => showR ((encodeMessage s.ext m).map .bytes)) (msgOfV m))
+      | "enc-set", [ms, off, .int magic] =>
+        (s, optRes (fun (p : List Message × Option Int) => showR ((encodeMessageSet s.ext p.1 p.2 magic).map .bytes))
+          (do let ms ← msgsOfV ms; let off ← off.toOptInt?; some (ms, off)))
+      | "mon-c04-set", [ms, off, .bytes data] =>
+        (s, optRes (fun (p : List Message × Option Int) => [(Monitor.C04.messageSet Crc.crc32 s.now p.1 p.2 data).name])
+          (do let ms ← msgsOfV ms; let off ← off.toOptInt?; some (ms, off)))
+      | "dec-set", [d] =>
+        (s, optRes (fun d => [showGen (decodeMessageSetOpt s.ext s.depth d)]) d.toOptBytes?)
+      | "create-set", [.list reqs, .int codec, .int magic] =>
+        (s, optRes (fun reqs => showR ((createMessageSet s.ext reqs codec magic).map (fun ms => .list (ms.map vOfMsg))))
+          (reqs.mapM (fun r => match r with
+            | .list [k, .list ps] => do let k ← k.toOptBytes?; let ps ← ps.mapM V.toOptBytes?; some (k, ps)
+            | _ => none)))
+      -- version selection
+      | "get-api-version", [st, .int key, .list attempts] =>
+        (s, optRes (fun (p : ApiVersionsState × List Attempt) =>
+            match getApiVersion p.1 key p.2 with
+            | none => ["pending"]
+            | some (.error e) => ["error " ++ e.name]
+            -- new state, version returned, and the format the producer had chosen BEFORE the call
+            | some (.ok (st', v)) => ["ok " ++ (V.list [vOfState st', .int v, .int (producerMagic p.1)]).render])
+          (do let st ← stateOfV st; let atts ← attempts.mapM attemptOfV; some (st, atts)))
+      | "produce-clamp", [.int v] => (s, ["ok " ++ (V.list [.int (produceClamp v).1, .int (produceClamp v).2]).render])
+      | "fetch-clamp", [.int v] => (s, ["ok " ++ (V.int (fetchClamp v)).render])
+      | "mon-version", [.list table, .int key, .int headerVersion] =>
+        (s, optRes (fun t => [if Monitor.C04.versionChosenOk t key headerVersion then "ok" else "fail"]) (tableOfV table))
+      | "mon-fallback", [.int headerVersion, magics] =>
+        (s, optRes (fun ms => [if Monitor.C04.fallbackOk headerVersion ms then "ok" else "fail"]) (ints? magics))
+      | _, _ => (s, ["bad-op"])
 
 end Driver.Wire
 
 def main : IO UInt32 := do
-  Driver.loop (← IO.getStdin) (← IO.getStdout) () Driver.Wire.step
+  Driver.loop (← IO.getStdin) (← IO.getStdout) ({} : Driver.Wire.St) Driver.Wire.step
   return 0
